@@ -26,7 +26,9 @@ PROPS['C10'] = dict(
                  '(or = some, and = every, not = none, implicit top-level or, empty list true) for EVERY well-formed opcode stream of any size and '
                  'nesting depth <= 8: loop invariant over a ghost frame stack, inductive lemmas lemma_split / lemma_pop / lemma_push / lemma_leaf_step, '
                  'termination, stack never overflows, expect/unreachable!/index sites unreachable; (A4) SwitchActions::next returns the first firing '
-                 'case from case_index on, break ends the iteration, fallthrough continues. Kani: the same codec facts on the unextracted functions '
+                 'case from case_index on, break ends the iteration, fallthrough continues; (A5) theorem_written_condition: for every written condition tree '
+                 '(leaves, and/or/not with >= 1 operand, depth <= 8) the prefix encoding with absolute end indices satisfies the evaluator precondition and '
+                 'sem_top(enc) is the meaning of the tree (structural induction over mutually recursive ghost datatypes; new_bool is proved to build the operator word enc uses). Kani: the same codec facts on the unextracted functions '
                  'over full operand domains, and each leaf arm of the real evaluate_boolean against the leaf meaning the Verus proof assumes (R5 split).'),
     verus=[dict(unit='switch', cex={'evaluate_boolean': ['c10_b_shape_nested_last_then_more', 'c10_b_shape_nested_first', 'c10_b_shape_nested_last', 'c10_b_shape_toplevel_list'], 'next': ['c10_b_case_iteration']},
                 fallback=['c10_b_shape_nested_last_then_more', 'c10_b_shape_nested_first', 'c10_b_shape_nested_last', 'c10_b_shape_toplevel_list', 'c10_b_case_iteration'])],
@@ -51,7 +53,7 @@ PROPS['C10'] = dict(
         H('keyberon', 'action::switch', 'c10_b_shape_toplevel_list', kind='bounded', tier='thorough', bound='fixed shape (op1 a b) c + empty list'),
     ],
     assumptions=[
-        'the parser emits enc(e) for a written expression e (parse_switch_case_bool is outside both verifiers)',
+        'the parser emits lenc(l, 0) (the encoding of A5) for a written condition l: parse_switch_case_bool is outside both verifiers, so a compiler bug is invisible here',
         'hand-off of fired switch actions into the action queue and fork live in Layout::do_action (not under contract)',
     ],
     trusted_base=['rustc', 'Verus 0.2026.09.13 / Z3', 'extractor lib/rustcut.py + lib/verusgen.py (rewrites logged in rewrites_applied)'],
@@ -203,7 +205,7 @@ PROPS['C11'] = dict(
     ],
     assumptions=[
         'KbdOut::{write_key, click_btn, release_btn, scroll} and post_filter_press/release are assumed to emit exactly one output each (external_body)',
-        'str_to_oscode and custom deflocalkeys names, the mapped-key set construction and its use by the Linux event loop are NOT decided',
+        'str_to_oscode: only the ten reserved names nop0..nop9 are checked (their match arms are read textually on each run and proved to lie in the ignored output range); every other name, custom deflocalkeys names (a global hash map), the mapped-key set construction and its use by the Linux event loop are NOT decided',
         'only target_os = "linux" arms',
     ],
     trusted_base=['rustc', 'Kani 0.68.0 / CBMC 6.11.0', 'Verus 0.2026.09.13 / Z3 (by(compute_only) for the discriminant lists)', 'vendored backtrace one-line patch (tooling only)'],
